@@ -29,7 +29,7 @@ From TLV Require Import Base.Shape Base.PyList Base.Tensor Base.BigSum Model.Bas
   Proofs.TenalgProofs Proofs.TenalgProofsKR Proofs.TenalgProofsEinsum Proofs.TenalgProofsInner
   Proofs.TenalgProofsOuter Proofs.TenalgProofsSample Proofs.TenalgProofsSort Proofs.TenalgProofsEinsumVec Proofs.TenalgProofsMulti Proofs.TenalgProofsEinsumInner
   Proofs.TenalgProofsEinsumMttkrp Proofs.TenalgProofsEinsumKR Proofs.TenalgProofsEinsumOuter Proofs.TenalgProofsMultiGen Proofs.TenalgProofsMultiGen2 Proofs.TenalgProofsMemory
-  Proofs.TenalgProofsTdotE Proofs.TenalgProofsTdotC Proofs.TenalgProofsEinsumMulti Proofs.TenalgProofsValidate Proofs.TenalgProofsTdotInner Proofs.TenalgProofsKRBcast Proofs.TenalgProofsNegMode Proofs.TenalgProofsNegMulti Proofs.TenalgProofsReject Proofs.TenalgProofsRepeat Proofs.TenalgProofsEq Proofs.TenalgProofsAnyModes.
+  Proofs.TenalgProofsTdotE Proofs.TenalgProofsTdotC Proofs.TenalgProofsEinsumMulti Proofs.TenalgProofsValidate Proofs.TenalgProofsTdotInner Proofs.TenalgProofsKRBcast Proofs.TenalgProofsNegMode Proofs.TenalgProofsNegMulti Proofs.TenalgProofsReject Proofs.TenalgProofsRepeat Proofs.TenalgProofsEq Proofs.TenalgProofsAnyModes Proofs.TenalgProofsW1.
 Import ListNotations.
 
 Definition ring_of {F} (Op : rops F) := ring_theory (r0 Op) (r1 Op) (radd Op) (rmul Op) (rsub Op) (ropp Op) (@eq F).
@@ -241,6 +241,41 @@ Example C02_multi_mode_dot_einsum_size1_before_8b25fc6 :
   multi_mode_dot_e_before_8b25fc6 ZR T [M] (Some [1]) None false = Ok (mk [2; 2] [3; 6; 7; 14]%Z) /\
   multi_mode_dot_e ZR T [M] (Some [1]) None false = Err.
 Proof. exact multi_mode_dot_einsum_size1_before_8b25fc6. Qed.
+
+(* weights with a single entry in the einsum-backend theorems (NumPy broadcasts them as a scalar): the same entry formulas with the
+   constant weight w[0]  (R <> 1: for R = 1 the length-R theorems apply) *)
+Theorem C02_khatri_rao_einsum_scalar_weight : forall (F : Type) (Op : rops F), ring_of Op ->
+  forall (Ms : list (tensor F)) (w : tensor F) (mask : option (tensor F)) (skip : option nat) (R : nat),
+  let Ms' := skipl skip Ms in
+  2 <= length Ms' -> mats R Ms' -> 0 < R -> R <> 1 -> shape w = [1] ->
+  (forall m0, mask = Some m0 -> shape m0 = map nrows Ms') ->
+  exists K, khatri_rao_e Op Ms (Some w) mask skip = Ok K /\ wf K /\ shape K = [prod (map nrows Ms'); R] /\
+    forall is_ r, inb (map nrows Ms') is_ -> r < R ->
+      get (r0 Op) K [ravel (map nrows Ms') is_; r]
+      = rmul Op (rmul Op (kr_entry Op Ms' is_ r) (nth 0 (data w) (r0 Op))) (maskv Op mask (ravel (map nrows Ms') is_)).
+Proof. exact @khatri_rao_e_scalar_weight_spec. Qed.
+Print Assumptions C02_khatri_rao_einsum_scalar_weight.
+
+Theorem C02_mttkrp_einsum_scalar_weight : forall (F : Type) (Op : rops F), ring_of Op -> conj_laws Op ->
+  forall (T : tensor F) (w : tensor F) (fs : list (tensor F)) (k R : nat),
+  wf T -> k < ndim T -> 0 < R -> R <> 1 -> map nrows fs = shape T -> mats R fs -> remove_nth k fs <> [] -> shape w = [1] ->
+  exists Mt, mttkrp_e Op T (Some w) fs k = Ok Mt /\ wf Mt /\ shape Mt = [nth k (shape T) 0; R] /\
+    forall i r, i < nth k (shape T) 0 -> r < R ->
+      get (r0 Op) Mt [i; r] =
+      ssum Op (remove_nth k (shape T))
+        (fun ridx => rmul Op (get (r0 Op) T (insert_at k i ridx))
+                             (rconj Op (rmul Op (kr_entry Op (remove_nth k fs) ridx r) (nth 0 (data w) (r0 Op))))).
+Proof. exact @mttkrp_e_scalar_weight_spec. Qed.
+Print Assumptions C02_mttkrp_einsum_scalar_weight.
+
+Example C02_nonvacuous_scalar_weight :
+  let A : tensor Z := mk [2; 2] [1; 2; 3; 4]%Z in let B : tensor Z := mk [3; 2] [1; 2; 3; 4; 5; 6]%Z in
+  let w : tensor Z := mk [1] [5]%Z in let T : tensor Z := mk [2; 3] [1; 2; 3; 4; 5; 6]%Z in
+  2 <= length (skipl None [A; B]) /\ mats 2 (skipl None [A; B]) /\ shape w = [1] /\ remove_nth 0 [A; B] <> [] /\
+  khatri_rao_e ZR [A; B] (Some w) None None = Ok (mk [6; 2] [5; 20; 15; 40; 25; 60; 15; 40; 45; 80; 75; 120]%Z) /\
+  mttkrp_e ZR T (Some w) [A; B] 0 = mttkrp_e ZR T (Some (repeat_w ZR 2 w)) [A; B] 0 /\
+  exists R, mttkrp_e ZR T (Some w) [A; B] 0 = Ok R.
+Proof. exact scalar_weight_nonvacuous. Qed.
 
 (* rejection of wrongly sized weights / masks: bad_size w n = w has neither n entries nor a single one *)
 Theorem C02_khatri_rao_rejects_weights : forall (F : Type) (Op : rops F) (Ms : list (tensor F)) (w : tensor F) (mask : option (tensor F)) (skip : option nat) (R : nat),
